@@ -307,6 +307,40 @@ def chr_values(w, sg, nm, rng, nrand):
     return sorted(filter(ok, ext)), sorted(filter(ok, core))
 
 
+def c_padded_consts(repo):
+    """the literal constants of __Pyx_PyUnicode_FromOrdinal_Padded as written in the C source, normalised to the model's
+    [ENC2_LIMIT, ENC3_LIMIT, LATIN1_MAX, PAD_LIMIT, CHARS_SIZE, SURR_LO, SURR_HI] (None where the text has another shape).
+    Memory safety of chars[256] is not observable from results, so these are compared textually."""
+    txt = open(os.path.join(repo, "Cython", "Utility", "TypeConversion.c")).read()
+    m = re.search(r"static PyObject\* __Pyx_PyUnicode_FromOrdinal_Padded\(int value.*?\n}\n", txt, re.S)
+    body = m.group(0) if m else ""
+    num = lambda x: int(x, 0)
+
+    def lt(pat):        # strict upper limit of `value < N` / `value <= N`
+        m = re.search(pat, body)
+        return None if not m else num(m.group(2)) + (1 if m.group(1) == "<=" else 0)
+    enc2 = lt(r"\n\s*if \(value (<=?) (\w+)\) \{\s*\*--cpos")
+    enc3 = lt(r"\} else if \(value (<=?) (\w+)\) \{\s*\*--cpos")
+    lat = lt(r"\n\s*if \(value (<=?) (\w+)\) \{\s*// Simple Latin1")
+    pad = lt(r"\(padding_length (<=?) (\w+)\)")
+    m = re.search(r"char chars\[(\w+)\];\s*\n\s*\n\s*if \(value", body)
+    size = num(m.group(1)) if m else None
+    m = re.search(r"\(value (<=?) (\w+) \|\| value (>=?) (\w+)\)", body)
+    slo = shi = None
+    if m:
+        slo = num(m.group(2)) + (1 if m.group(1) == "<=" else 0)
+        shi = num(m.group(4)) - (1 if m.group(3) == ">=" else 0)
+    return [enc2, enc3, None if lat is None else lat - 1, None if pad is None else pad - 1, size, slo, shi]
+
+
+def _uncanon(d):
+    """inverse of callworker.canon for the value shapes the sweep functions return"""
+    if isinstance(d["r"], list):
+        return [_uncanon(x) for x in d["r"]]
+    import ast
+    return ast.literal_eval(d["r"])
+
+
 def _chr_expect(tmpl, pv):
     try:
         return tmpl.format(v=pv)
@@ -322,7 +356,6 @@ def classify_chr(tmpl, wi, v):
 
 def run_chr(ctx, wd, model, quick, nbad):
     """the whole padded-ordinal class: (type, template, value) three ways + in-module sweeps of all code points"""
-    import ast
     rng = ctx.rng
     tmpls = chr_templates(quick)
     tstrs = [t[0] for t in tmpls]
@@ -336,6 +369,13 @@ def run_chr(ctx, wd, model, quick, nbad):
     ctx.case("chr/dispatch", "c18_chr", sig=("chr-dispatch",))
     if not want_calls <= set(calls) or "__Pyx_PyUnicode_FromOrdinal_Padded" not in ctext:
         ctx.corr_break("chr-fastpath-dispatch", "c18_chr", sorted(set(calls))[:40], sorted(want_calls)[:40])
+    # source tie of the constants (guards, padding limit, buffer size): the buffer bound is a memory-safety fact
+    src_consts = c_padded_consts(ctx.repo)
+    mod_consts = [int(x) for x in model.batch(["padconsts"])[0].split(",")]
+    ctx.case("chr/source-constants", src_consts, sig=("chr-consts",))
+    if src_consts != mod_consts:
+        ctx.corr_break("chr:model-constants-vs-C-source [ENC2_LIMIT, ENC3_LIMIT, LATIN1_MAX, PAD_LIMIT, CHARS_SIZE, SURR_LO, SURR_HI]",
+                       "Cython/Utility/TypeConversion.c:__Pyx_PyUnicode_FromOrdinal_Padded", src_consts, mod_consts)
     cases, meta = [], []
     for ctn, nm, w, sg in CHR_TYPES:
         ext, core = chr_values(w, sg, nm, rng, 2 if quick else 12)
@@ -355,14 +395,14 @@ def run_chr(ctx, wd, model, quick, nbad):
                     redo.append(["c18_chr.sw_%s" % nm, [[v], [k]]])
                     redo_meta.append((nm, w, sg, v, k))
             continue
-        rows = ast.literal_eval(r["r"])
+        rows = _uncanon(r)
         it = iter(rows)
         for v in vals:
             for k in ks:
                 flat.append((nm, w, sg, v, k, next(it)))
     if redo:
         for (nm, w, sg, v, k), r in zip(redo_meta, cybuild.call_cases(wd, redo, setup=setup, alarm=10, max_crashes=400)):
-            flat.append((nm, w, sg, v, k, [r["e"]] if "e" in r else ast.literal_eval(r["r"])[0]))
+            flat.append((nm, w, sg, v, k, [r["e"]] if "e" in r else _uncanon(r)[0]))
     mq, sq, mqi = [], [], []
     for j, (nm, w, sg, v, k, got) in enumerate(flat):
         t, wi, p, kind = tmpls[k]
@@ -443,7 +483,7 @@ def run_chr(ctx, wd, model, quick, nbad):
     for (nm, ks), r in zip(sweeps, sres_):
         n = hi * len(ks)
         ctx.count("chr/all-code-points/%s" % nm, n, distinct_sigs=[("chr-sweep", nm, tstrs[k]) for k in ks])
-        bad = [["CRASH", 0, r.get("e"), r.get("m")]] if "e" in r else ast.literal_eval(r["r"])
+        bad = [["CRASH", 0, r.get("e"), r.get("m")]] if "e" in r else _uncanon(r)
         for x, k, got, exp in bad[:3]:
             inp = {"form": "fstring-c", "type": nm, "template": tstrs[k] if isinstance(k, int) else k, "value": x,
                    "func": "c18_chr.sw_%s" % nm, "sweep": [0, hi]}
